@@ -64,6 +64,30 @@ def hostile_mem(r, it, codec, tier, i):
     sim.run(3, 50_000_000, net, net, probe_every=1)
     return sim
 
+def hostile_acks(r, it, codec, tier, i):
+    """frame ids 32 or more apart (every frame opens a new ack group) arriving much faster than the victim's own
+    send rate lets it acknowledge: the queue of pending ack groups must stay bounded by the frame window."""
+    cfg = pick_cfg(r)
+    cfg["bwA"] = cfg["bwB"] = r.pick([1472, 20_000, 2_000_000])
+    sim = Sim(r, cfg, inter=it)
+    net = Net(latency=0)
+    sim.run(r.range(1, 5), 5_000_000, net, net, random_traffic(r, rate_pm=300, max_len=500), probe_every=1)
+    p = sim.probe("B")
+    if p is None:
+        return sim
+    fid = int(p["aq"][0])
+    total = r.pick([300, 1000, 3000]) if tier == "quick" else r.pick([1000, 5000, 20000])
+    for k in range(total):
+        if sim.dead:
+            break
+        fid = (fid + r.pick([32, 32, 33, 40, 64, cfg["fw"] - 1])) & 0xFFFFFFFF
+        sim.op("B frame data %d %d 0" % (fid, r.below(2)))
+        if k % r.pick([50, 200, 1000]) == 0:
+            sim.run(1, r.pick([1_000_000, 20_000_000]), net, net, probe_every=1)
+    sim.probe("B")
+    sim.run(3, 50_000_000, net, net, probe_every=1)
+    return sim
+
 def streams(rng, tier, ctx):
     n = 30 if tier == "quick" else 500
     it = Interactive("hc"); codec = Interactive("codec")
@@ -84,6 +108,8 @@ def streams(rng, tier, ctx):
                             sim.send("A", r.below(3), r.pick([1, 2, 3, 3]), r.pick([100, 700, F - 1, F + 1, 2 * F + 1, 2 * F + 600, (k - 1) * F + 1, r.range(1, (k - 1) * F)]))
                 sim.run(r.range(30, 80), r.pick([5_000_000, 20_000_000]), Net(latency=r.pick([0, 10_000_000])), Net(latency=0), tr, probe_every=1)
                 H.finish(sim, drain=True, max_ticks=100)
+            elif i % 5 == 4:
+                sim = hostile_acks(r, it, codec, tier, i)
             elif i % 3 != 2:
                 sim = hostile_mem(r, it, codec, tier, i)
             else:
@@ -126,6 +152,10 @@ def oracle(stream, cid, ops, outs):
             fails.append({"oracle": "send_alloc_bound", "detail": "%s: send alloc %d > peer limit %d" % (ep, sa, smx), "signature": {"oracle": "send_alloc_bound"}}); break
         if int(p["pb"][2]) > smx:
             fails.append({"oracle": "send_alloc_bound", "detail": "%s: window alloc sum %s > peer limit %d" % (ep, p["pb"][2], smx), "signature": {"oracle": "send_alloc_bound"}}); break
+        naq = int(p["aq"][1]); fw = sim.cfg["fw"]
+        if naq > fw // 32 + 2:
+            fails.append({"oracle": "ack_queue_bound", "detail": "%s: %d acknowledgement groups pending with a frame window of %d (bound %d)" % (ep, naq, fw, fw // 32 + 2),
+                          "signature": {"oracle": "ack_queue_bound"}}); break
         out = (int(p["ps"][1]) - int(p["ps"][0])) % (1 << 20)
         if out > W:
             fails.append({"oracle": "send_window_bound", "detail": "%s: %d packets outstanding > window %d" % (ep, out, W), "signature": {"oracle": "send_window_bound"}}); break
